@@ -10,3 +10,5 @@ flock /verif/.lean.lock go run ./cmd/extractfsm -repo "${1:-/repo}" -out /verif/
 flock /verif/.lean.lock go run ./cmd/extractlayout -repo "${1:-/repo}" -shim /verif/cshim-layout -scratch /var/tmp/extractlayout-regen -lean /verif/lean/Bng/Gen/Layout.lean || echo "regen: extractlayout (C06) failed"
 # C16 termination-path table (lean/Bng/Gen/Paths.lean, written atomically)
 flock /verif/.lean.lock go run ./cmd/extractpaths -repo "${1:-/repo}" -out /verif/lean/Bng/Gen/Paths.lean || echo "regen: extractpaths (C16) failed"
+# C04 guard table (lean/Bng/Gen/Guards.lean, written atomically)
+flock /verif/.lean.lock go run ./cmd/extractguards -repo "${1:-/repo}" -out /verif/lean/Bng/Gen/Guards.lean || echo "regen: extractguards (C04) failed"
